@@ -1845,6 +1845,15 @@ class Deb822ParagraphElement(Deb822Element, Deb822ParagraphToStrWrapperMixin, AB
         """
         raise NotImplementedError  # pragma: no cover
 
+    def _ensure_final_newline(self):
+        # type: () -> None
+        """Ensure the last field ends on a newline (needed before placing anything after it)"""
+        last_kvpair = None
+        for part in self.iter_parts():
+            last_kvpair = part
+        if isinstance(last_kvpair, Deb822KeyValuePairElement):
+            last_kvpair.value_element.add_final_newline_if_missing()
+
     def set_field_to_simple_value(self,
                                   item,  # type: ParagraphKey
                                   simple_value,  # type: str
@@ -2170,6 +2179,8 @@ class Deb822NoDuplicateFieldsParagraphElement(Deb822ParagraphElement):
             # way
             key = value.field_name
         original_value = self._kvpair_elements.get(key)
+        if original_value is None:
+            self._ensure_final_newline()
         self._kvpair_elements[key] = value
         self._kvpair_order.append(key)
         if original_value is not None:
@@ -2456,6 +2467,7 @@ class Deb822DuplicateFieldsParagraphElement(Deb822ParagraphElement):
                       " in the first place.  Please index-less key or ({key}, 0) if you" \
                       " want to add the field."
                 raise KeyError(msg.format(key=key, index=index))
+            self._ensure_final_newline()
             node = self._kvpair_order.append(value)
             if key not in self._kvpair_elements:
                 self._kvpair_elements[key] = [node]
